@@ -37,9 +37,9 @@ impl<K: KeyView, V> HashMap<K, V> {
     pub fn index_(&self, k: &K) -> (r: &V) ensures self@.dom().contains(k.kv()), *r == self@[k.kv()] { unimplemented!() }
 }
 
-/// `vec.into_iter().collect::<HashSet<_>>().into_iter().collect::<Vec<_>>()` on addresses: the distinct elements, arbitrary order
-pub trait DedupExt { fn dedup_hashset_(self) -> Vec<Addr>; }
-impl DedupExt for Vec<Addr> {
+/// `vec.into_iter().collect::<HashSet<_>>().into_iter().collect::<Vec<_>>()` on addresses / strings: the distinct elements, arbitrary order
+pub trait DedupExt<T> { fn dedup_hashset_(self) -> Vec<T>; }
+impl DedupExt<Addr> for Vec<Addr> {
     #[verifier::external_body]
     fn dedup_hashset_(self) -> (r: Vec<Addr>)
         ensures
@@ -47,6 +47,28 @@ impl DedupExt for Vec<Addr> {
             forall|i: int| 0 <= i < r@.len() ==> exists|k: int| 0 <= k < self@.len() && (#[trigger] self@[k])@ == (#[trigger] r@[i])@,
             forall|k: int| 0 <= k < self@.len() ==> exists|i: int| 0 <= i < r@.len() && (#[trigger] r@[i])@ == (#[trigger] self@[k])@,
             r@.len() <= self@.len(),
+    { unimplemented!() }
+}
+impl DedupExt<Str> for Vec<Str> {
+    #[verifier::external_body]
+    fn dedup_hashset_(self) -> (r: Vec<Str>)
+        ensures
+            forall|i: int, j: int| 0 <= i < j < r@.len() ==> (#[trigger] r@[i])@ != (#[trigger] r@[j])@,
+            forall|i: int| 0 <= i < r@.len() ==> exists|k: int| 0 <= k < self@.len() && (#[trigger] self@[k])@ == (#[trigger] r@[i])@,
+            forall|k: int| 0 <= k < self@.len() ==> exists|i: int| 0 <= i < r@.len() && (#[trigger] r@[i])@ == (#[trigger] self@[k])@,
+            r@.len() <= self@.len(),
+    { unimplemented!() }
+}
+/// `Vec::dedup` (R5: `.dedup()` -> `.dedup_()`): removes CONSECUTIVE repeated elements only
+pub trait DedupAdjExt { fn dedup_(&mut self); }
+impl DedupAdjExt for Vec<Str> {
+    #[verifier::external_body]
+    fn dedup_(&mut self)
+        ensures
+            final(self)@.len() <= old(self)@.len(),
+            forall|i: int| 0 <= i < final(self)@.len() - 1 ==> (#[trigger] final(self)@[i])@ != final(self)@[i + 1]@,
+            forall|i: int| 0 <= i < final(self)@.len() ==> exists|k: int| 0 <= k < old(self)@.len() && (#[trigger] old(self)@[k])@ == (#[trigger] final(self)@[i])@,
+            forall|k: int| 0 <= k < old(self)@.len() ==> exists|i: int| 0 <= i < final(self)@.len() && (#[trigger] final(self)@[i])@ == (#[trigger] old(self)@[k])@,
     { unimplemented!() }
 }
 } // verus!
